@@ -7,7 +7,9 @@ usage: c14_driver.py SESSION.json OUT.ndjson [--mutant NAME]
 SESSION.json: {"cfg": {...}, "histories": [{"id", "ue", "org", "steps"}]}
   cfg = api ("interp" | "eval"), method, dim, kernel ("probe" or the name of
         a class of pysph.base.kernels), names (source array names, in the
-        order of construction)
+        order of construction), per ([Lx, Ly, Lz] lattice periods, 0 = none:
+        a DomainManager is passed to the Interpolator; all histories of such
+        a session share ue and org)
   a step = {"act", "src", "pts", "lin"} - the abstract state AFTER the action
         (spec/Interp.tla part 6), integers on the lattice.
 ONE real object (one generated + compiled evaluator) serves the whole
@@ -39,6 +41,26 @@ except (ValueError, OSError):
 import numpy as np
 
 sys.path.insert(0, os.path.dirname(os.path.abspath(__file__)))
+
+
+def preinstall(argv):
+    """--mutant file:PATH: PATH is an edited copy of
+    pysph/tools/interpolator.py (e.g. with a proposed repair); it replaces
+    the module in THIS process, before anything imports it."""
+    if '--mutant' in argv:
+        m = argv[argv.index('--mutant') + 1]
+        if m.startswith('file:'):
+            import importlib.util
+            import pysph.tools
+            spec = importlib.util.spec_from_file_location(
+                'pysph.tools.interpolator', m[5:])
+            mod = importlib.util.module_from_spec(spec)
+            sys.modules['pysph.tools.interpolator'] = mod
+            spec.loader.exec_module(mod)
+            pysph.tools.interpolator = mod
+
+
+preinstall(sys.argv)
 
 import pysph
 from pysph.base.utils import get_particle_array
@@ -77,7 +99,7 @@ class InterpolateSPH(Equation):
 
 
 def install_mutant(name):
-    if not name:
+    if not name or name.startswith('file:'):
         return
     if name == 'shepard-norm':
         interp_mod.InterpolateFunction = InterpolateFunction
@@ -201,10 +223,24 @@ class Session(object):
         cfg = self.cfg
         kernel = get_kernel(cfg['kernel'], cfg['dim'])
         self.arrays = [self.make_array(a) for a in s['src']]
+        dm = None
+        per = cfg.get('per') or [0, 0, 0]
+        if any(per):
+            # periodic box [org, org + L) * 2^ue along the periodic axes
+            from pysph.base.nnps_base import DomainManager
+            lo = [self.real(0, self.org[k]) for k in range(3)]
+            hi = [self.real(per[k], self.org[k]) for k in range(3)]
+            dm = DomainManager(
+                xmin=lo[0], xmax=hi[0] if per[0] else lo[0],
+                ymin=lo[1], ymax=hi[1] if per[1] else lo[1],
+                zmin=lo[2], zmax=hi[2] if per[2] else lo[2],
+                periodic_in_x=bool(per[0]), periodic_in_y=bool(per[1]),
+                periodic_in_z=bool(per[2]))
         if cfg['api'] == 'interp':
             x, y, z = self.coords(s['pts'])
             self.obj = Interpolator(self.arrays, x=x, y=y, z=z,
-                                    kernel=kernel, method=cfg['method'])
+                                    kernel=kernel, method=cfg['method'],
+                                    domain_manager=dm)
             if self.obj.dim != cfg['dim']:
                 raise SystemExit('driver: Interpolator.dim = %r for a '
                                  'session of dim %r' % (self.obj.dim,
@@ -258,13 +294,15 @@ class Session(object):
             for pa, a in zip(self.arrays, s['src']):
                 new = self.make_array(a)
                 for key in ('x', 'y', 'z', 'h'):
-                    pa.get(key, only_real_particles=False)[:] = new.get(key)
+                    pa.get(key)[:] = new.get(key)     # the real particles
             self.obj.update()
         elif act == 'SetValues':
             for pa, a in zip(self.arrays, s['src']):
                 for key in ('m', 'rho', 'f'):
-                    pa.get(key, only_real_particles=False)[:] = \
-                        [float(q[key]) for q in a['p']]
+                    pa.get(key)[:] = [float(q[key]) for q in a['p']]
+            if any(cfg.get('per') or ()):
+                # periodic images are copies made by update(): refresh them
+                self.obj.update()
         elif act == 'Interpolate':
             return self.interpolate(s)
         else:
